@@ -331,7 +331,22 @@ def r_bypass(ctx):
                        "the name is built from %d parts, %d are needed (function, block / condition, samples)" % (nargs, need), em.where)
 
 
+def r_nameunique(ctx):
+    """Within one hook the condition names handed to the generators are pairwise distinct (a table is stored under its condition name)."""
+    ca = formula.get(ctx.repo)
+    for c in ca.families:
+        names = [em.name for em in ca.hooks[c.name].emissions if em.via in ("two_lists", "one_list")]
+        dup = sorted({n for n in names if n is not None and names.count(n) > 1})
+        unnamed = [em for em in ca.hooks[c.name].emissions if em.via in ("two_lists", "one_list") and em.name is None]
+        if names:
+            ctx.ob("R-NAME", "%s::distinct condition names" % c.name, not dup and not unnamed,
+                   "conditions %s have distinct names" % names if not dup and not unnamed else
+                   ("condition name(s) %s used twice: the second table overwrites the first and the constraint names collide" % dup if dup else
+                    "a generator call has no constant condition name"), "%s:%d" % (c.module.rel, ca.hooks[c.name].fn.lineno))
+
+
 def run(ctx):
+    r_nameunique(ctx)
     r_align(ctx)
     r_name(ctx)
     n = r_tabletype(ctx)
